@@ -327,7 +327,7 @@ Lemma defer_runs_app a b : defer_runs (a ++ b) = defer_runs a ++ defer_runs b.
 Proof. apply flat_map_app. Qed.
 Lemma bg_started_app a b : bg_started (a ++ b) = bg_started a ++ bg_started b.
 Proof. apply flat_map_app. Qed.
-Lemma bg_interrupted_app a b : bg_interrupted (a ++ b) = bg_interrupted a ++ bg_interrupted b.
+Lemma bg_gone_app a b : bg_gone (a ++ b) = bg_gone a ++ bg_gone b.
 Proof. apply flat_map_app. Qed.
 Lemma bg_waited_app a b : bg_waited (a ++ b) = bg_waited a ++ bg_waited b.
 Proof. apply flat_map_app. Qed.
@@ -337,7 +337,7 @@ Lemma work_removed_app a b : work_removed (a ++ b) = work_removed a ++ work_remo
 Proof. apply flat_map_app. Qed.
 
 Lemma ev_int_all_proj b :
-  bg_interrupted (ev_int_all b) = map fst b /\ bg_waited (ev_int_all b) = [] /\ bg_started (ev_int_all b) = []
+  bg_gone (ev_int_all b) = map fst b /\ bg_waited (ev_int_all b) = [] /\ bg_started (ev_int_all b) = []
   /\ defer_regs (ev_int_all b) = [] /\ defer_runs (ev_int_all b) = [] /\ setup_events (ev_int_all b) = []
   /\ work_removed (ev_int_all b) = [].
 Proof.
@@ -345,7 +345,7 @@ Proof.
 Qed.
 
 Lemma ev_wait_all_proj b :
-  bg_waited (ev_wait_all b) = map fst b /\ bg_interrupted (ev_wait_all b) = [] /\ bg_started (ev_wait_all b) = []
+  bg_waited (ev_wait_all b) = map fst b /\ bg_gone (ev_wait_all b) = [] /\ bg_started (ev_wait_all b) = []
   /\ defer_regs (ev_wait_all b) = [] /\ defer_runs (ev_wait_all b) = [] /\ setup_events (ev_wait_all b) = []
   /\ work_removed (ev_wait_all b) = [].
 Proof.
@@ -354,7 +354,7 @@ Qed.
 
 Lemma skip_wait_proj b evs ok :
   skip_wait b = (evs, ok) ->
-  bg_interrupted evs = [] /\ bg_started evs = [] /\ defer_regs evs = [] /\ defer_runs evs = []
+  bg_gone evs = [] /\ bg_started evs = [] /\ defer_regs evs = [] /\ defer_runs evs = []
   /\ setup_events evs = [] /\ work_removed evs = [] /\ (ok = true -> bg_waited evs = map fst b).
 Proof.
   revert evs ok. induction b as [|[h n] b IH]; intros evs ok H; cbn [skip_wait] in H.
@@ -364,6 +364,38 @@ Proof.
       destruct (IH _ _ eq_refl) as (H1 & H2 & H3 & H4 & H5 & H6 & H7).
       repeat split; try assumption. intro Hok. cbn. f_equal. exact (H7 Hok).
     + injection H as <- <-. cbn. repeat split; try reflexivity. discriminate.
+Qed.
+
+Lemma wait_list_proj sig b : forall evs res,
+  wait_list sig b = (evs, res) ->
+  bg_gone evs = [] /\ bg_started evs = [] /\ defer_regs evs = [] /\ defer_runs evs = []
+  /\ setup_events evs = [] /\ work_removed evs = [] /\
+  (res = WOk -> bg_waited evs = map fst b /\ forall h, In h (map fst b) -> quick_fail h = true \/ sig h = true).
+Proof.
+  induction b as [|[h n] b IH]; intros evs res H; cbn [wait_list] in H.
+  - injection H as <- <-. cbn. repeat split; tauto.
+  - destruct (quick_fail h || sig h) eqn:Eq.
+    + destruct n.
+      * destruct (wait_list sig b) as [evs' res'] eqn:E. injection H as <- <-.
+        destruct (IH _ _ eq_refl) as (H1 & H2 & H3 & H4 & H5 & H6 & H7).
+        repeat split; try assumption.
+        -- cbn. f_equal. now apply H7.
+        -- intros h' [<-|Hin]; [now apply orb_true_iff | now apply H7].
+      * injection H as <- <-. cbn. repeat split; try reflexivity; discriminate.
+    + injection H as <- <-. cbn. repeat split; try reflexivity; discriminate.
+Qed.
+
+Lemma gone_of_started_quick l h : In h (bg_started l) -> quick_fail h = true -> In h (bg_gone l).
+Proof.
+  unfold bg_started, bg_gone. intros H Q. apply in_flat_map in H as (e & He & Hh). apply in_flat_map.
+  exists e. split; [exact He|]. destruct e; cbn in Hh; try contradiction. destruct Hh as [<-|[]]. rewrite Q. now left.
+Qed.
+
+Lemma gone_of_signalled l h : signalled l h = true -> In h (bg_gone l).
+Proof.
+  unfold signalled, bg_interrupted_ev, bg_gone. intro H. apply existsb_exists in H as (x & Hx & E).
+  apply Nat.eqb_eq in E. subst x. apply in_flat_map in Hx as (e & He & Hh). apply in_flat_map.
+  exists e. split; [exact He|]. destruct e; cbn in Hh; try contradiction. exact Hh.
 Qed.
 
 (* the events one line appends, and what it does to the other components *)
@@ -377,7 +409,8 @@ Record line_effect (ss ss' : sstate) (l : list event) : Prop := {
   le_dstack : map fst (dstack ss') = rev (defer_regs l) ++ map fst (dstack ss);
   le_bg_new : forall h, In h (bg_started l) -> In h (map fst (bgl ss'));
   le_bg_old : forall h, In h (map fst (bgl ss)) ->
-                In h (map fst (bgl ss')) \/ (In h (bg_interrupted l) /\ In h (bg_waited l))
+                In h (map fst (bgl ss')) \/
+                ((In h (bg_gone (obs ss ++ l)) \/ quick_fail h = true) /\ In h (bg_waited l))
 }.
 
 Lemma line_effect_refl ss : line_effect ss ss [].
@@ -400,12 +433,14 @@ Proof.
   intros [A1 A2 A3 A4 A5 A6 A7 A8 A9]. cbn [add_obs obs ph wpresent dstack bgl] in *.
   constructor; cbn; try assumption.
   - now rewrite A1, <- app_assoc.
+  - intros h Hh. destruct (A9 h Hh) as [?|[G W]]; [now left|]. right. split; [|exact W].
+    rewrite <- app_assoc in G. exact G.
 Qed.
 
 Lemma exec_action_effect cfg s a : forall c ss c' ss' o,
   exec_action cfg s c ss a = (c', ss', o) -> exists l, line_effect ss ss' l.
 Proof.
-  induction a as [p d|p ro|p|p|k v|sub keep|id bad|h neg| | | | | | | |neg prog a IH]; intros c ss c' ss' o H;
+  induction a as [p d|p ro|p|p|k v|sub keep|id bad|h neg| | | | | | | | |neg prog a IH]; intros c ss c' ss' o H;
     cbn [exec_action] in H.
   - destruct (write_file _ _ _ _); injection H as <- <- <-; exists []; [now apply line_effect_same | apply line_effect_refl].
   - destruct (mkdir_all _ _ _); injection H as <- <- <-; exists []; [now apply line_effect_same | apply line_effect_refl].
@@ -439,7 +474,8 @@ Proof.
        | now rewrite defer_regs_app, I4, W3
        | rewrite bg_started_app, I3, W2; intros h []
        | ]).
-    + intros h Hh. right. rewrite bg_interrupted_app, bg_waited_app, I1, I2, W1, (W7 eq_refl), app_nil_r. cbn. tauto.
+    + intros h Hh. right. rewrite !bg_gone_app, bg_waited_app, I1, I2, W1, (W7 eq_refl). cbn [app].
+      split; [left; rewrite !in_app_iff; tauto | exact Hh].
     + intros h Hh. now left.
   - injection H as <- <- <-. exists []. apply line_effect_refl.
   - injection H as <- <- <-. exists []. apply line_effect_refl.
@@ -463,7 +499,20 @@ Proof.
        | now rewrite defer_regs_app, I4, W3
        | rewrite bg_started_app, I3, W2; intros h []
        | ]).
-    + intros h Hh. right. rewrite bg_interrupted_app, bg_waited_app, I1, I2, W1, (W7 eq_refl), app_nil_r. cbn. tauto.
+    + intros h Hh. right. rewrite !bg_gone_app, bg_waited_app, I1, I2, W1, (W7 eq_refl). cbn [app].
+      split; [left; rewrite !in_app_iff; tauto | exact Hh].
+    + intros h Hh. now left.
+  - (* wait *)
+    destruct (wait_list (signalled (obs ss)) (bgl ss)) as [waited res] eqn:E.
+    destruct (wait_list_proj _ _ _ _ E) as (W1 & W2 & W3 & W4 & W5 & W6 & W7).
+    exists waited.
+    destruct res; injection H as <- <- <-;
+      (constructor; cbn [add_obs set_bgl obs ph wpresent dstack bgl]; try reflexivity; try assumption;
+       [ now rewrite W3 | rewrite W2; intros h [] | ]).
+    + destruct (W7 eq_refl) as [Ww Wq]. intros h Hh. right. split; [|now rewrite Ww].
+      destruct (Wq h Hh) as [Q|Sg]; [now right | left]. rewrite bg_gone_app. apply in_or_app. left.
+      now apply gone_of_signalled.
+    + intros h Hh. now left.
     + intros h Hh. now left.
   - destruct (cached_look cfg s c ss prog) as [ans c1] eqn:E.
     destruct (Bool.eqb ans (negb neg)).
@@ -475,7 +524,7 @@ Qed.
 
 Definition bgok (ss : sstate) : Prop :=
   forall h, In h (bg_started (obs ss)) ->
-    In h (map fst (bgl ss)) \/ (In h (bg_interrupted (obs ss)) /\ In h (bg_waited (obs ss))).
+    In h (map fst (bgl ss)) \/ (In h (bg_gone (obs ss)) /\ In h (bg_waited (obs ss))).
 
 Definition defers_pending (ss : sstate) : Prop :=
   defer_runs (obs ss) = [] /\ map fst (dstack ss) = rev (defer_regs (obs ss)).
@@ -492,8 +541,8 @@ Definition sinv (cfg : config) (p : script) (s : nat) (ss : sstate) : Prop :=
   (retain cfg = true -> work_removed (obs ss) = [] /\ (ph ss <> NotStarted -> wpresent ss = true)) /\
   match ph ss with
   | NotStarted => obs ss = [] /\ dstack ss = [] /\ bgl ss = [] /\ wpresent ss = false
-  | Running _ | Ending _ SInt | Ending _ SDefers => defers_pending ss
-  | Ending _ SWait => defers_pending ss /\ (forall h, In h (map fst (bgl ss)) -> In h (bg_interrupted (obs ss)))
+  | Running _ | Ending _ SInt | Ending _ SDefers | Stuck => defers_pending ss
+  | Ending _ SWait => defers_pending ss /\ (forall h, In h (map fst (bgl ss)) -> In h (bg_gone (obs ss)))
   | Ending _ SBgClean => defers_done ss
   | Ending _ SCleanup => defers_done ss /\ bgl ss = []
   | Done _ => defers_done ss /\ bgl ss = [] /\ (retain cfg = false -> wpresent ss = false /\ tr ss = [])
@@ -516,7 +565,7 @@ Lemma defer_runs_of_stack (l : list (nat * bool)) :
   defer_runs (map (fun d => EvDeferRun (fst d)) l) = map fst l
   /\ defer_regs (map (fun d => EvDeferRun (fst d)) l) = []
   /\ bg_started (map (fun d => EvDeferRun (fst d)) l) = []
-  /\ bg_interrupted (map (fun d => EvDeferRun (fst d)) l) = []
+  /\ bg_gone (map (fun d => EvDeferRun (fst d)) l) = []
   /\ bg_waited (map (fun d => EvDeferRun (fst d)) l) = []
   /\ setup_events (map (fun d => EvDeferRun (fst d)) l) = []
   /\ work_removed (map (fun d => EvDeferRun (fst d)) l) = [].
@@ -525,10 +574,12 @@ Proof. repeat split; induction l as [|a l IH]; cbn; try reflexivity; first [exac
 Lemma bgok_line ss ss' l : bgok ss -> line_effect ss ss' l -> bgok ss'.
 Proof.
   intros B [A1 A2 A3 A4 A5 A6 A7 A8 A9] h Hh. rewrite A1 in *.
-  rewrite bg_started_app in Hh. rewrite bg_interrupted_app, bg_waited_app.
+  rewrite bg_started_app in Hh. rewrite bg_gone_app, bg_waited_app.
   apply in_app_or in Hh as [Hh|Hh].
   - destruct (B h Hh) as [Hb|[Hi Hw]].
-    + destruct (A9 h Hb) as [?|[? ?]]; [now left|]. right. split; apply in_or_app; now right.
+    + destruct (A9 h Hb) as [?|[[G|Q] W]]; [now left| |].
+      * right. split; [now rewrite <- bg_gone_app | apply in_or_app; now right].
+      * right. split; [apply in_or_app; left; now apply gone_of_started_quick | apply in_or_app; now right].
     + right. split; apply in_or_app; now left.
   - left. now apply A8.
 Qed.
@@ -543,7 +594,7 @@ Lemma sstep_sinv cfg p s c ss c' ss' e :
   sinv cfg p s ss -> sstep cfg p s c ss = (c', ss', e) -> sinv cfg p s ss'.
 Proof.
   intros (B & SU & RT & PH) H. unfold sstep in H.
-  destruct (ph ss) as [|pc|v st|v] eqn:Eph.
+  destruct (ph ss) as [|pc|v st|v|] eqn:Eph.
   - (* setup *)
     destruct PH as (O & D & G & W).
     destruct (defer_regs_of_setup (setup_defers p)) as (R1 & R2 & R3 & R4 & R5).
@@ -559,7 +610,7 @@ Proof.
         split; [intros h []|]. split; [right; exists t; now split|]. split; [now intros _|].
         assert (DP : [] = ([] : list nat) /\ map fst (rev (setup_defers p)) = rev (map fst (setup_defers p) ++ [])).
         { now rewrite app_nil_r, map_rev. }
-        destruct ph0 as [|?|? []|?]; try contradiction; exact DP. }
+        destruct ph0 as [|?|? []|?|]; try contradiction; exact DP. }
       destruct (setup_err p); injection H as <- <- <-; apply K; exact I.
     + injection H as <- <- <-. unfold sinv, bgok, setup_ok, defers_pending. cbn.
       split; [intros h []|]. split; [now left|]. split; [now intros _|]. now split.
@@ -574,15 +625,15 @@ Proof.
         - rewrite A7, A1, defer_regs_app, rev_app_distr, P2. reflexivity. }
       assert (K : forall ssx, obs ssx = obs ss1 -> bgl ssx = bgl ss1 -> dstack ssx = dstack ss1 ->
                     wpresent ssx = wpresent ss1 ->
-                    match ph ssx with Running _ | Ending _ SDefers | Ending _ SInt => True | _ => False end ->
+                    match ph ssx with Running _ | Ending _ SDefers | Ending _ SInt | Stuck => True | _ => False end ->
                     sinv cfg p s ssx).
       { intros ssx Eo Eb Ed Ew Hph. unfold sinv, bgok, setup_ok, defers_pending in *. rewrite Eo, Eb, Ed, Ew.
         split; [exact B1|]. split; [rewrite A1, setup_events_app, A5, app_nil_r; exact SU|]. split.
         - intro Hr. destruct (RT Hr) as [R1 R2]. split.
           + now rewrite A1, work_removed_app, R1, A6.
           + intros _. rewrite A3. apply R2. try rewrite Eph; discriminate.
-        - destruct (ph ssx) as [|?|? []|?]; try contradiction; exact DP. }
-      destruct o; [| destruct (continue_on_error cfg) | | |]; apply K; try reflexivity; exact I.
+        - destruct (ph ssx) as [|?|? []|?|]; try contradiction; exact DP. }
+      destruct o; [| destruct (continue_on_error cfg) | | | |]; apply K; try reflexivity; exact I.
     + injection H as <- <- <-. unfold sinv. cbn [set_ph ph obs bgl dstack wpresent].
       split; [exact B|]. split; [exact SU|]. split; [|exact PH].
       intro Hr. destruct (RT Hr) as [R1 R2]. split; [exact R1|]. intros _. apply R2. try rewrite Eph; discriminate.
@@ -593,7 +644,7 @@ Proof.
     + (* SInt *)
       injection H as <- <- <-. destruct (ev_int_all_proj (bgl ss)) as (I1 & I2 & I3 & I4 & I5 & I6 & I7).
       unfold sinv, bgok, setup_ok, defers_pending in *. cbn [set_ph add_obs ph obs bgl dstack wpresent].
-      rewrite bg_started_app, bg_interrupted_app, bg_waited_app, setup_events_app, work_removed_app,
+      rewrite bg_started_app, bg_gone_app, bg_waited_app, setup_events_app, work_removed_app,
         defer_runs_app, defer_regs_app, I1, I2, I3, I4, I5, I6, I7, !app_nil_r.
       split; [|split; [exact SU|split]].
       * intros h Hh. destruct (B h Hh) as [?|[? ?]]; [now left|]. right. split; [apply in_or_app; now left|assumption].
@@ -603,7 +654,7 @@ Proof.
       injection H as <- <- <-. destruct (ev_wait_all_proj (bgl ss)) as (I1 & I2 & I3 & I4 & I5 & I6 & I7).
       destruct PH as [PH1 PH2].
       unfold sinv, bgok, setup_ok, defers_pending in *. cbn [set_ph set_bgl add_obs ph obs bgl dstack wpresent].
-      rewrite bg_started_app, bg_interrupted_app, bg_waited_app, setup_events_app, work_removed_app,
+      rewrite bg_started_app, bg_gone_app, bg_waited_app, setup_events_app, work_removed_app,
         defer_runs_app, defer_regs_app, I1, I2, I3, I4, I5, I6, I7, !app_nil_r.
       split; [|split; [exact SU|split]].
       * intros h Hh. right. destruct (B h Hh) as [Hb|[Hi Hw]].
@@ -615,7 +666,7 @@ Proof.
       injection H as <- <- <-. destruct (defer_runs_of_stack (dstack ss)) as (D1 & D2 & D3 & D4 & D5 & D6 & D7).
       destruct PH as [PH1 PH2].
       unfold sinv, bgok, setup_ok, defers_done in *. cbn [set_ph set_dstack add_obs ph obs bgl dstack wpresent].
-      rewrite bg_started_app, bg_interrupted_app, bg_waited_app, setup_events_app, work_removed_app,
+      rewrite bg_started_app, bg_gone_app, bg_waited_app, setup_events_app, work_removed_app,
         defer_runs_app, defer_regs_app, D1, D2, D3, D4, D5, D6, D7, !app_nil_r.
       split; [exact B|split; [exact SU|split]].
       * intro Hr. split; [now apply RT | intros _; now apply WP].
@@ -624,7 +675,7 @@ Proof.
       injection H as <- <- <-. destruct (ev_int_all_proj (bgl ss)) as (I1 & I2 & I3 & I4 & I5 & I6 & I7).
       destruct (ev_wait_all_proj (bgl ss)) as (W1 & W2 & W3 & W4 & W5 & W6 & W7).
       unfold sinv, bgok, setup_ok, defers_done in *. cbn [set_ph set_bgl add_obs ph obs bgl dstack wpresent].
-      rewrite !bg_started_app, !bg_interrupted_app, !bg_waited_app, !setup_events_app, !work_removed_app,
+      rewrite !bg_started_app, !bg_gone_app, !bg_waited_app, !setup_events_app, !work_removed_app,
         !defer_runs_app, !defer_regs_app, I1, I2, I3, I4, I5, I6, I7, W1, W2, W3, W4, W5, W6, W7, !app_nil_r.
       split; [|split; [exact SU|split]].
       * intros h Hh. right. destruct (B h Hh) as [Hb|[Hi Hw]].
@@ -641,11 +692,12 @@ Proof.
         -- split; [exact PH1|]. split; [exact PH2|]. intro Hf. rewrite Er in Hf. discriminate.
       * injection H as <- <- <-. rewrite remove_all_empty.
         unfold sinv, bgok, setup_ok, defers_done in *. cbn [ph obs bgl dstack wpresent tr].
-        rewrite bg_started_app, bg_interrupted_app, bg_waited_app, setup_events_app, defer_runs_app, defer_regs_app.
-        cbn [bg_started bg_interrupted bg_waited setup_events defer_runs defer_regs flat_map app]. rewrite !app_nil_r.
+        rewrite bg_started_app, bg_gone_app, bg_waited_app, setup_events_app, defer_runs_app, defer_regs_app.
+        cbn [bg_started bg_gone bg_waited setup_events defer_runs defer_regs flat_map app]. rewrite !app_nil_r.
         split; [exact B|split; [exact SU|split]].
         -- intro Hf. rewrite ?Er in Hf. discriminate.
         -- split; [exact PH1|]. split; [exact PH2|]. now intros _.
+  - injection H as <- <- <-. unfold sinv. rewrite Eph. auto.
   - injection H as <- <- <-. unfold sinv. rewrite Eph. auto.
 Qed.
 
@@ -688,15 +740,16 @@ Lemma sstep_effect cfg p s c ss c' ss' e :
   | NoEffect => is_done ss' = is_done ss \/ retain cfg = true
   end.
 Proof.
-  unfold sstep. intro H. destruct (ph ss) as [|pc|v st|v] eqn:Eph.
+  unfold sstep. intro H. destruct (ph ss) as [|pc|v st|v|] eqn:Eph.
   - destruct (setup_result cfg p); [destruct (setup_err p)|]; injection H as <- <- <-; left; unfold is_done; cbn; now rewrite Eph.
   - destruct (nth_error (body p) pc).
     + destruct (exec_action cfg s c ss a) as [[c1 ss1] o]. injection H as <- <- <-. left.
-      unfold is_done. rewrite Eph. destruct o; [| destruct (continue_on_error cfg) | | |]; reflexivity.
+      unfold is_done. rewrite Eph. destruct o; [| destruct (continue_on_error cfg) | | | |]; reflexivity.
     + injection H as <- <- <-. left. unfold is_done. cbn. now rewrite Eph.
   - destruct st; try (injection H as <- <- <-; left; unfold is_done; cbn; now rewrite Eph).
     destruct (retain cfg) eqn:Er; injection H as <- <- <-; [now right|].
     split; [reflexivity|]. exists v. now split.
+  - injection H as <- <- <-. now left.
   - injection H as <- <- <-. now left.
 Qed.
 
@@ -937,7 +990,7 @@ Qed.
 Lemma exec_action_env_ok cfg s a : forall c ss c' ss' o,
   exec_action cfg s c ss a = (c', ss', o) -> env_ok s (senv ss) -> env_ok s (senv ss').
 Proof.
-  induction a as [p d|p ro|p|p|k v|sub keep|id bad|h neg| | | | | | | |neg prog a IH]; intros c ss c' ss' o H E;
+  induction a as [p d|p ro|p|p|k v|sub keep|id bad|h neg| | | | | | | | |neg prog a IH]; intros c ss c' ss' o H E;
     cbn [exec_action] in H.
   - destruct (write_file _ _ _ _); injection H as <- <- <-; exact E.
   - destruct (mkdir_all _ _ _); injection H as <- <- <-; exact E.
@@ -955,6 +1008,7 @@ Proof.
   - injection H as <- <- <-. exact E.
   - injection H as <- <- <-. exact E.
   - destruct (skip_wait (bgl ss)) as [waited ok]. destruct ok; injection H as <- <- <-; exact E.
+  - destruct (wait_list _ _) as [waited res]. destruct res; injection H as <- <- <-; exact E.
   - destruct (cached_look cfg s c ss prog) as [ans c1]. destruct (Bool.eqb ans (negb neg)).
     + eapply IH; eauto.
     + injection H as <- <- <-. exact E.
@@ -981,9 +1035,9 @@ Lemma exec_action_sim cfg s a : key_by_path cfg = true ->
   exec_action cfg s cb ss a = (cb', ssb, ob) -> exec_action cfg s ca ss a = (ca', ssa, oa) ->
   ssb = ssa /\ ob = oa /\ Rel cfg s cb' ca' /\ Glob cfg cb' /\ frame_others cfg s cb cb'.
 Proof.
-  intro Hk. induction a as [p d|p ro|p|p|k v|sub keep|id bad|h neg| | | | | | | |neg prog a IH];
+  intro Hk. induction a as [p d|p ro|p|p|k v|sub keep|id bad|h neg| | | | | | | | |neg prog a IH];
     intros cb ca ss cb' ssb ob ca' ssa oa R G E Hb Ha.
-  16: {
+  17: {
     cbn [exec_action] in Hb, Ha.
     destruct (cached_look cfg s cb ss prog) as [vb cb1] eqn:Eb.
     destruct (cached_look cfg s ca ss prog) as [va ca1] eqn:Ea.
@@ -1014,7 +1068,7 @@ Lemma sstep_sim cfg p s cb ca ss cb' ssb eb ca' ssa ea :
   ssb = ssa /\ Rel cfg s cb' ca' /\ Glob cfg cb' /\ env_ok s (senv ssb) /\ frame_others cfg s cb cb'.
 Proof.
   intros Hk Hwf R G E Hb Ha. unfold sstep in Hb, Ha.
-  destruct (ph ss) as [|pc|v st|v].
+  destruct (ph ss) as [|pc|v st|v|].
   - destruct (setup_result cfg p) as [t|].
     + destruct (setup_err p); injection Hb as <- <- <-; injection Ha as <- <- <-;
         (split; [reflexivity|]); (split; [exact R|]); (split; [exact G|]);
@@ -1028,13 +1082,15 @@ Proof.
       injection Hb as <- <- <-; injection Ha as <- <- <-.
       split; [reflexivity|]. split; [exact R1|]. split; [exact G1|]. split; [|exact F1].
       assert (E1 : env_ok s (senv ssa1)) by (eapply exec_action_env_ok; eauto).
-      destruct oa; [| destruct (continue_on_error cfg) | | |]; exact E1.
+      destruct oa; [| destruct (continue_on_error cfg) | | | |]; exact E1.
     + injection Hb as <- <- <-; injection Ha as <- <- <-.
       split; [reflexivity|]. split; [exact R|]. split; [exact G|]. split; [exact E | apply frame_others_refl].
   - destruct st; try (injection Hb as <- <- <-; injection Ha as <- <- <-;
         (split; [reflexivity|]); (split; [exact R|]); (split; [exact G|]); (split; [exact E | apply frame_others_refl])).
     destruct (retain cfg); injection Hb as <- <- <-; injection Ha as <- <- <-;
         (split; [reflexivity|]); (split; [exact R|]); (split; [exact G|]); (split; [exact E | apply frame_others_refl]).
+  - injection Hb as <- <- <-; injection Ha as <- <- <-.
+    split; [reflexivity|]. split; [exact R|]. split; [exact G|]. split; [exact E | apply frame_others_refl].
   - injection Hb as <- <- <-; injection Ha as <- <- <-.
     split; [reflexivity|]. split; [exact R|]. split; [exact G|]. split; [exact E | apply frame_others_refl].
 Qed.
@@ -1118,7 +1174,7 @@ Qed.
 Lemma sstep_nocond cfg p s : script_uses_cond p = false ->
   forall c1 c2 ss, snd (fst (sstep cfg p s c1 ss)) = snd (fst (sstep cfg p s c2 ss)).
 Proof.
-  intros H c1 c2 ss. unfold sstep. destruct (ph ss) as [|pc|v st|v].
+  intros H c1 c2 ss. unfold sstep. destruct (ph ss) as [|pc|v st|v|].
   - destruct (setup_result cfg p); [destruct (setup_err p)|]; reflexivity.
   - destruct (nth_error (body p) pc) as [a|] eqn:Ea; [|reflexivity].
     assert (Ha : uses_cond a = false).
@@ -1128,6 +1184,7 @@ Proof.
     destruct (exec_action_nocond cfg s a Ha c1 c2 ss) as [X _]. rewrite X.
     destruct (exec_action cfg s c1 ss a) as [[c ss1] o]. reflexivity.
   - destruct st; try reflexivity. destruct (retain cfg); reflexivity.
+  - reflexivity.
   - reflexivity.
 Qed.
 
@@ -1206,25 +1263,27 @@ Definition mu (p : script) (ss : sstate) : nat :=
   | Ending _ SBgClean => 2
   | Ending _ SCleanup => 1
   | Done _ => 0
+  | Stuck => 0
   end.
 
 Lemma sstep_mu cfg p s c ss c' ss' e :
   sstep cfg p s c ss = (c', ss', e) -> mu p ss' <= pred (mu p ss).
 Proof.
-  unfold sstep, mu. intro H. destruct (ph ss) as [|pc|v st|v] eqn:Eph.
+  unfold sstep, mu. intro H. destruct (ph ss) as [|pc|v st|v|] eqn:Eph.
   - destruct (setup_result cfg p); [destruct (setup_err p)|]; injection H as <- <- <-; cbn [ph set_ph]; lia.
   - destruct (nth_error (body p) pc) as [a|] eqn:Ea.
     + destruct (exec_action cfg s c ss a) as [[c1 ss1] o]. injection H as <- <- <-. cbn [ph set_ph].
       assert (pc < length (body p)) by (apply nth_error_Some; congruence).
-      destruct o; [| destruct (continue_on_error cfg) | | |]; cbn [ph set_ph set_failed]; lia.
+      destruct o; [| destruct (continue_on_error cfg) | | | |]; cbn [ph set_ph set_failed]; lia.
     + injection H as <- <- <-. cbn [ph set_ph]. lia.
   - destruct st; try (injection H as <- <- <-; cbn [ph set_ph]; lia).
     destruct (retain cfg); injection H as <- <- <-; cbn [ph set_ph]; lia.
   - injection H as <- <- <-. rewrite Eph. lia.
+  - injection H as <- <- <-. rewrite Eph. lia.
 Qed.
 
-Lemma mu_zero_done p ss : mu p ss = 0 -> is_done ss = true.
-Proof. unfold mu, is_done. destruct (ph ss) as [|pc|v []|v]; intro H; try lia; reflexivity. Qed.
+Lemma mu_zero_done p ss : mu p ss = 0 -> is_done ss = true \/ ph ss = Stuck.
+Proof. unfold mu, is_done. destruct (ph ss) as [|pc|v []|v|]; intro H; try lia; auto. Qed.
 
 Lemma run_mu cfg progs s p : nth_error progs s = Some p ->
   forall sched st ss, nth_error (scripts st) s = Some ss ->
@@ -1243,14 +1302,67 @@ Proof.
 Qed.
 
 (* whatever the others do, a script that has been given steps_bound steps is finished: no exit path of
-   run can get stuck (in the model a wait always returns: processes die when interrupted) *)
+   run can get stuck — except a script that executes a bare `wait` while one of its background commands
+   is still running and has not been signalled: that one waits for ever (as the code does) *)
 Lemma every_script_finishes cfg progs sched s p :
   nth_error progs s = Some p -> steps_bound p <= count_occ Nat.eq_dec sched s ->
-  exists ss, nth_error (scripts (run cfg progs (init progs) sched)) s = Some ss /\ is_done ss = true.
+  exists ss, nth_error (scripts (run cfg progs (init progs) sched)) s = Some ss /\ (is_done ss = true \/ ph ss = Stuck).
 Proof.
   intros Hp Hb. destruct (run_mu cfg progs s p Hp sched (init progs) sstate0) as (ss & Hs & M).
   { cbn. eapply nth_error_map_const_some; eauto. }
   exists ss. split; [exact Hs|]. apply (mu_zero_done p). unfold steps_bound in Hb. unfold mu at 2 in M. cbn [ph sstate0] in M. lia.
+Qed.
+
+(* a script without a bare `wait` never gets stuck *)
+Lemma exec_action_not_stuck cfg s a : has_wait a = false -> forall c ss, snd (exec_action cfg s c ss a) <> OStuck.
+Proof.
+  induction a as [p d|p ro|p|p|k v|sub keep|id bad|h neg| | | | | | | | |neg prog a IH]; intros Hw c ss;
+    cbn [exec_action has_wait] in *; try discriminate;
+    repeat match goal with
+           | |- context [match ?x with _ => _ end] => destruct x
+           end; cbn [snd]; try discriminate.
+  all: try (apply IH; assumption).
+Qed.
+
+Lemma sstep_not_stuck cfg p s c ss :
+  script_has_wait p = false -> ph ss <> Stuck -> ph (snd (fst (sstep cfg p s c ss))) <> Stuck.
+Proof.
+  intros Hw Hs. unfold sstep. destruct (ph ss) as [|pc|v st|v|] eqn:Eph; [| | | |contradiction].
+  - destruct (setup_result cfg p); [destruct (setup_err p)|]; cbn; discriminate.
+  - destruct (nth_error (body p) pc) as [a|] eqn:Ea; [|cbn; discriminate].
+    assert (Ha : has_wait a = false).
+    { unfold script_has_wait in Hw. destruct (has_wait a) eqn:E; [|reflexivity].
+      assert (X : existsb has_wait (body p) = true) by (apply existsb_exists; exists a; split; [eapply nth_error_In; eauto | exact E]).
+      congruence. }
+    pose proof (exec_action_not_stuck cfg s a Ha c ss) as N.
+    destruct (exec_action cfg s c ss a) as [[c1 ss1] o]. cbn [snd fst] in *.
+    destruct o; [| destruct (continue_on_error cfg) | | | |]; cbn; try discriminate. contradiction.
+  - destruct st; cbn; try discriminate. destruct (retain cfg); cbn; discriminate.
+  - cbn. rewrite Eph. discriminate.
+Qed.
+
+Lemma never_stuck cfg progs sched s p : nth_error progs s = Some p -> script_has_wait p = false ->
+  forall st ss, nth_error (scripts st) s = Some ss -> ph ss <> Stuck ->
+  forall ss', nth_error (scripts (run cfg progs st sched)) s = Some ss' -> ph ss' <> Stuck.
+Proof.
+  intros Hp Hw. unfold run. induction sched as [|s0 sched IH]; intros st ss Hs Hn ss' Hs'.
+  - cbn in Hs'. congruence.
+  - cbn [fold_left] in Hs'. destruct (Nat.eq_dec s0 s) as [->|Hne].
+    + unfold step at 2 in Hs'. rewrite Hp, Hs in Hs'.
+      pose proof (sstep_not_stuck cfg p s (xcache (sh st)) ss Hw Hn) as N.
+      destruct (sstep cfg p s (xcache (sh st)) ss) as [[c ss1] e]. cbn [fst snd] in N.
+      refine (IH _ ss1 _ N ss' Hs'). cbn [scripts]. eapply nth_error_upd_same; eauto.
+    + refine (IH (step cfg progs st s0) ss _ Hn ss' Hs'). now rewrite step_frame.
+Qed.
+
+Lemma every_script_without_bare_wait_finishes cfg progs sched s p :
+  nth_error progs s = Some p -> script_has_wait p = false -> steps_bound p <= count_occ Nat.eq_dec sched s ->
+  exists ss, nth_error (scripts (run cfg progs (init progs) sched)) s = Some ss /\ is_done ss = true.
+Proof.
+  intros Hp Hw Hb. destruct (every_script_finishes cfg progs sched s p Hp Hb) as (ss & Hs & [D|S]); [eauto|].
+  exfalso. eapply (never_stuck cfg progs sched s p Hp Hw (init progs) sstate0); [| | exact Hs | exact S].
+  - cbn. eapply nth_error_map_const_some; eauto.
+  - discriminate.
 Qed.
 
 (* ------------------------------------------------------------------ the statements of Properties/C04.v *)
@@ -1402,7 +1514,7 @@ Qed.
 Lemma no_bg_left cfg progs sched s p ss v :
   nth_error progs s = Some p -> nth_error (scripts (run cfg progs (init progs) sched)) s = Some ss ->
   ph ss = Done v ->
-  bgl ss = [] /\ forall h, In h (bg_started (obs ss)) -> In h (bg_interrupted (obs ss)) /\ In h (bg_waited (obs ss)).
+  bgl ss = [] /\ forall h, In h (bg_started (obs ss)) -> In h (bg_gone (obs ss)) /\ In h (bg_waited (obs ss)).
 Proof.
   intros Hp Hs Hd. destruct (reachable_sinv _ _ _ _ _ _ Hp Hs) as (B & _ & _ & PH). rewrite Hd in PH.
   destruct PH as (_ & Hb & _). split; [exact Hb|]. intros h Hh. destruct (B h Hh) as [Hin|H]; [|exact H].
@@ -1494,7 +1606,7 @@ Example every_exit_path_occurs :
   let st := run ex_cfg ex_progs (init ex_progs) (round_robin 7 12) in
   map ph (scripts st) = [Done VPass; Done VFail; Done VSkip; Done VStop; Done VSetupFail; Done VPanic; Done VFail]
   /\ map (fun ss => defer_runs (obs ss)) (scripts st) = [[2; 1; 7]; [1; 7]; [1; 7]; [1; 7]; []; [2; 1; 7]; [7]]
-  /\ map (fun ss => (bg_started (obs ss), bg_interrupted (obs ss), bg_waited (obs ss))) (scripts st)
+  /\ map (fun ss => (bg_started (obs ss), bg_gone (obs ss), bg_waited (obs ss))) (scripts st)
      = [([1], [1], [1]); ([1], [1], [1]); ([1], [1], [1]); ([1], [1], [1]); ([], [], []); ([3], [3], [3]); ([], [], [])]
   /\ root_present (sh st) = false /\ root_removals (sh st) = 1 /\ cancelled (sh st) = true.
 Proof. vm_compute. repeat split. Qed.
@@ -1511,6 +1623,18 @@ Example continue_on_error_example :
   map ph (scripts st) = [Done VFail; Done VPass; Done VFail]
   /\ map (fun ss => length (filter (fun e => match e with EvProbe _ _ _ => true | _ => false end) (obs ss))) (scripts st) = [1; 1; 0]
   /\ map (fun ss => defer_runs (obs ss)) (scripts st) = [[1; 7]; [7]; [7]].
+Proof. vm_compute. repeat split. Qed.
+
+Example bare_wait_example :
+  (* `wait` with a command that has exited with a failure (handle 100) before one that still runs
+     (handle 1): the line fails, and the end of run still interrupts and waits for the second; a
+     bare wait on a running command alone is stuck for ever *)
+  let progs := [ex_script [ABg 100 false; ABg 1 false; AWait; AProbe]; ex_script [ABg 100 true; AWait; AProbe];
+                ex_script [ABg 1 false; AWait]] in
+  let st := run ex_cfg progs (init progs) (round_robin 3 14) in
+  map ph (scripts st) = [Done VFail; Done VPass; Stuck]
+  /\ map (fun ss => (bg_started (obs ss), bg_gone (obs ss), bg_waited (obs ss))) (scripts st)
+     = [([100; 1], [100; 100; 1], [100; 100; 1]); ([100], [100], [100]); ([1], [], [])].
 Proof. vm_compute. repeat split. Qed.
 
 Example wf_example : forall s p, nth_error [ex_script [AProbe]] s = Some p -> wf_script s p.
